@@ -238,6 +238,59 @@ def main(tier):
     for f in A.findings:
         if f["lemma"] == "VALUE" or f["class"] in ("STRING_LITERAL", "NON_NEG_INTEGER", "NON_NEG_FLOAT"):
             witnesses.append(lexcommon.witness_payload(f))
+    # conversion functions of the numeric token rules are total on their own lexemes (CPython's digit limit included)
+    from vf.lexsym import model as lxm, rx as lrx
+    known = common.findings_for(PROP)
+    for r_ in A.main.rules:
+        if r_.func is None or r_.type not in ("NON_NEG_INTEGER", "NON_NEG_FLOAT"):
+            continue
+        fpaths, frun = lxm.function_effect(r_.func, lxm.to_z3(r_.rx), init_type=r_.type, extra_opts={"int_str_limit": True})
+        for fp_ in fpaths:
+            if fp_["outcome"] != "raise":
+                continue
+            # long strings are hard for the sequence solver: offer candidate lexemes and let z3 EVALUATE the path
+            # condition on them (a model supplied by us, checked by the solver's evaluator); otherwise ask it outright
+            from vf.pysym.ops import INT_STR_LIMIT
+            lexeme = None
+            for cand in ("1" + "0" * INT_STR_LIMIT, "9" * (INT_STR_LIMIT + 1), "1" + "0" * INT_STR_LIMIT + ".5"):
+                sub = [z3.simplify(z3.substitute(c_, (fp_["lexeme"].term, z3.StringVal(cand)))) for c_ in fp_["conds"]]
+                if all(z3.is_true(x) for x in sub):
+                    lexeme = cand
+                    total.sat += 1
+                    break
+            res_ = "sat" if lexeme is not None else None
+            if res_ is None:
+                res_, m_ = common.check(total, list(fp_["conds"]), min(timeout_ms, 20000), keep_sample=False, _retry=False,
+                                        label="C05 lex: the conversion function of %s raises on one of its own lexemes" % r_.type)
+                if res_ == "sat":
+                    lexeme = harness.z3str_to_py(m_.eval(fp_["lexeme"].term, model_completion=True))
+            if res_ == "sat":
+                witnesses.append({"kind": "compiles", "text": 'def e { splitters: uid return %s weighted 1 }' % lexeme,
+                                  "known_class": "int-literal-digit-limit" if len(lexeme) > 4000 else None,
+                                  "why": "the %s literal of %d digits cannot be converted: %s raised by the lexer" % (
+                                      r_.type, len(lexeme), fp_.get("exc"))})
+            elif res_ == "unknown":
+                rep.inconc("unknown on conversion totality of %s" % r_.type)
+    # ... and stay inside binary64: float(lexeme) is +inf from 2^1024 - 2^970 on (IEEE round-to-nearest overflow), and
+    # the generator prints a float with repr(): `inf` is not a Python literal
+    for r_ in A.main.rules:
+        if r_.func is None or r_.type != "NON_NEG_FLOAT" or "VALUE(NON_NEG_FLOAT)" not in info["discharged"]:
+            continue
+        lx_ = z3.String("lexeme")
+        dot = z3.IndexOf(lx_, z3.StringVal("."), 0)
+        over = z3.And(z3.InRe(lx_, lxm.to_z3(r_.rx)), dot > 0,
+                      z3.StrToInt(z3.SubString(lx_, 0, dot)) >= z3.IntVal(2 ** 1024 - 2 ** 970))
+        cand = "1" + "0" * 310 + ".5"
+        if z3.is_true(z3.simplify(z3.substitute(over, (lx_, z3.StringVal(cand))))):
+            total.sat += 1
+            witnesses.append({"kind": "compiles", "text": 'def e { splitters: uid return %s weighted 1 }' % cand, "fields": {"uid": enc("u")},
+                              "known_class": "decimal-literal-overflow",
+                              "why": "a decimal literal of %d digits exceeds the binary64 range: float() gives inf" % len(cand)})
+        else:
+            res_, m_ = common.check(total, [over], min(timeout_ms, 20000), _retry=False,
+                                    label="C05 lex: a decimal lexeme whose value overflows binary64")
+            if res_ == "unknown":
+                rep.inconc("unknown on decimal literal range")
     # model
     mfind, minfo, mvalid = stage_model(total, timeout_ms)
     for position, kind, lit, desc in mfind:
@@ -346,10 +399,14 @@ def main(tier):
         payload = dict(w)
         payload["property"] = PROP
         payload.pop("search_group", None)
+        kc = payload.pop("known_class", None)
         o = common.run_replay_subprocess(payload)
         payload["replay_result"] = o
-        summary = "%s | %s" % (w["why"], o.get("observed", ""))
-        if o.get("reproduced"):
+        summary = "%s | %s" % (w["why"], o.get("observed", "")[:300])
+        kf = [f for f in known if kc and f.get("class") == kc]
+        if o.get("reproduced") and kf and ("ValueError" in o.get("observed", "") or "NameError" in o.get("observed", "")):
+            rep.known_finding(kf[0]["what"])
+        elif o.get("reproduced"):
             rep.violation(payload, summary)
             if g:
                 groups[g] = "found"
